@@ -489,6 +489,7 @@ impl<'h> Exec<'h> {
         for h in self.held.iter_mut() {
             *h = None;
         }
+        self.c08.unpin_all();
     }
 
     pub fn close(&mut self) {
@@ -1100,6 +1101,13 @@ impl<'h> Exec<'h> {
         let reference = drain_forward(twin.as_mut())?;
         drop(twin);
         self.probes.hit("holds_opened");
+        let digests: std::collections::BTreeSet<String> = store
+            .tree()
+            .verif_levels()
+            .iter()
+            .flat_map(|l| l.iter().map(|f| f.0.hexdigest()))
+            .collect();
+        self.c08.pin(slot, digests);
         self.held[slot] = Some(Held {
             cursor,
             lo: lob,
@@ -1242,6 +1250,7 @@ impl<'h> Exec<'h> {
             Op::HoldUse { slot, prog } => self.do_hold_use(*slot, prog),
             Op::HoldDrop { slot } => {
                 self.held[*slot] = None;
+                self.c08.unpin(*slot);
                 Ok(())
             }
             Op::Flush => {
